@@ -401,7 +401,8 @@ func diff(ref node.Result, got node.Result, gotErr error, m *modelOut) (msg stri
 	return strings.Join(msgs, "\n"), ambiguousDiffers
 }
 
-// checkReference compares the reference answer with the naive model: same cells, sum cells exact.
+// checkReference compares the reference answer with the naive model: same cells, same values
+// (order-ambiguous first/last cells: any value).
 func checkReference(ref node.Result, m *modelOut) string {
 	var msgs []string
 	seen := map[cell]bool{}
@@ -413,8 +414,8 @@ func checkReference(ref node.Result, m *modelOut) string {
 				if !m.present[c] {
 					msgs = append(msgs, fmt.Sprintf("reference has [%s] %s %d = %v, no written point feeds it", k, f, ts, v))
 				}
-				if want, ok := m.sums[c]; ok && want != v {
-					msgs = append(msgs, fmt.Sprintf("reference [%s] %s %d = %v, sum of the written points %v", k, f, ts, v, want))
+				if want, ok := m.exact[c]; ok && want != v {
+					msgs = append(msgs, fmt.Sprintf("reference [%s] %s %d = %v, the written points give %v", k, f, ts, v, want))
 				}
 			}
 		}
